@@ -2425,7 +2425,7 @@ def preprocess_file(
     def_cont_name = None
     pp_cont = False
     for i, line in enumerate(contents_split):
-        # The continuation lines of a conditional belong to its first line
+        # The continuation lines of a directive belong to its first line
         if pp_cont:
             output_file.append("")
             pp_cont = line.rstrip().endswith("\\")
@@ -2558,6 +2558,10 @@ def preprocess_file(
                         def_cont_name = def_name
                     else:
                         def_value = line[match.end(0) + eq_ind :].strip()
+                elif line.rstrip().endswith("\\"):
+                    # (no blank between the name and the backslash)
+                    def_value = ""
+                    def_cont_name = def_name
                 else:
                     def_value = "True"
 
@@ -2572,6 +2576,8 @@ def preprocess_file(
                 defs_tmp.pop(def_name, None)
                 # A later #define of the same name must not reuse the old body
                 def_regexes.pop(def_name, None)
+            # The continuation lines of a directive are never code
+            pp_cont = def_cont_name is None and line.rstrip().endswith("\\")
             log.debug("%s !!! Define statement(%d)", line.strip(), i + 1)
             continue
         # Handle include files
